@@ -17,6 +17,17 @@ from rogw.tranp.transpiler.types import ITranspiler  # noqa: E402
 def main():
 	ops = json.loads(sys.argv[1])
 	app = App(TranspileApp.definitions(Args(['-c', 'config.yml'])))
+	provider = None
+	if any(op == 'submit' for op, _ in ops):
+		# the wiring of the interactive mode (bin/transpile.py Interactive.__init__): in-memory main module, dummy meta factory
+		from rogw.tranp.app.dummy import WrapSourceProvider, make_dummy_module_meta_factory
+		from rogw.tranp.data.meta.types import ModuleMetaFactory
+		from rogw.tranp.lang.locator import Locator
+		from rogw.tranp.syntax.ast.parser import SourceProvider
+		di = app.resolve(Locator)
+		di.rebind(SourceProvider, WrapSourceProvider)
+		di.rebind(ModuleMetaFactory, make_dummy_module_meta_factory)
+		provider = app.resolve(SourceProvider)
 	modules = app.resolve(Modules)
 	transpiler = app.resolve(ITranspiler)
 	out = []
@@ -30,6 +41,11 @@ def main():
 			elif op == 'unload':
 				modules.unload(m)
 				out.append({'op': op, 'module': m})
+			elif op == 'submit':
+				# one prompt of the interactive mode: Interactive.rebuild_module + transpile
+				provider.source_code = m
+				modules.unload(provider.main_module_path)
+				out.append({'op': op, 'module': provider.main_module_path, 'text': transpiler.transpile(modules.load(provider.main_module_path).entrypoint)})
 		except Exception as e:  # noqa: BLE001
 			out.append({'op': op, 'module': m, 'error': f'{type(e).__name__}: {str(e)[:200]}'})
 	print('RESULT ' + json.dumps(out))
